@@ -645,3 +645,79 @@ func nilTolerantFormMethods(c *cx) map[string]bool {
 	}
 	return tol
 }
+
+// r19ExpiredDeadlineClearedByItsSetter (C07.27 = C05.32 = C10.26): the
+// goroutines of setDeadline / setWriteDeadline that put an expired deadline on
+// the connection also lift it, on every path to their end: when the lifting
+// is left to somebody else (the cancel function the caller runs), the set can
+// come after the lift and nothing lifts it again - every later write on the
+// connection (the reply to the next IQ, the closing tag) times out.
+func r19ExpiredDeadlineClearedByItsSetter(c *cx, id string) {
+	n := 0
+	for _, name := range []string{"setDeadline", "setWriteDeadline"} {
+		pf := c.fn(id, "", name)
+		if pf == nil {
+			continue
+		}
+		for _, f := range pf.Lits {
+			g := f.Graph()
+			isZero := func(e ast.Expr) bool {
+				cl, ok := ast.Unparen(e).(*ast.CompositeLit)
+				return ok && len(cl.Elts) == 0
+			}
+			isLift := func(q eng.Point, nd ast.Node) bool {
+				var cl *ast.CallExpr
+				switch x := nd.(type) {
+				case *ast.ExprStmt:
+					cl, _ = x.X.(*ast.CallExpr)
+				case *ast.CallExpr:
+					cl = x
+				}
+				return cl != nil && strings.Contains(f.CalleeID(cl), "Deadline") && len(cl.Args) == 1 && isZero(cl.Args[0])
+			}
+			for _, cl := range f.AllCalls() {
+				if !strings.Contains(f.CalleeID(cl), "Deadline") || len(cl.Args) != 1 || isZero(cl.Args[0]) {
+					continue
+				}
+				n++
+				cp, ok := g.Where(cl)
+				if !ok {
+					c.r.Unresolved(id, f.Short+": deadline call not placed")
+					continue
+				}
+				okk := len(g.Returns) > 0
+				for _, rs := range g.Returns {
+					rp, ok := g.Where(rs)
+					if !ok || !g.Reachable(g.After(cp), rp, nil, nil) {
+						continue
+					}
+					if !g.MustPassBefore(g.After(cp), rp, isLift, nil) {
+						okk = false
+					}
+				}
+				c.r.Check(id, f, "expired deadline lifted by the goroutine that set it", "P: after "+types.ExprString(cl)+" every path to the end of the goroutine passes the call with the zero time", cl.Pos(), okk, "the goroutine can end with the expired deadline in force: a lift that runs elsewhere may come BEFORE this set, and every later write on the connection fails")
+			}
+		}
+	}
+	c.r.Floor(id, "expired deadlines set by the deadline helpers", n, 2)
+}
+
+// r19LeaveAlwaysAsks (C18.35): Channel.Leave is LeavePresence with an empty
+// presence, unconditionally, and returns its result.
+func r19LeaveAlwaysAsks(c *cx, id string) {
+	f := c.fn(id, "muc", "(*Channel).Leave")
+	if f == nil {
+		return
+	}
+	calls := f.Calls("muc.Channel.LeavePresence")
+	c.r.Floor(id, "leaves in Channel.Leave", len(calls), 1)
+	for _, cl := range calls {
+		c.onlyFacts(id, f, cl, "leave request", []string{})
+	}
+	g := f.Graph()
+	for _, rs := range g.Returns {
+		pt, _ := g.Where(rs)
+		okk := len(rs.Results) == 1 && strings.Contains(f.Norm(rs.Results[0], &pt), "LeavePresence")
+		c.r.Check(id, f, "result is the leave's result", "K: Channel.Leave returns what LeavePresence returns", rs.Pos(), okk, "a return that is not the result of the leave request: success without telling the room")
+	}
+}
